@@ -182,6 +182,7 @@ void myth_verif_spin(int id);
 void myth_verif_cov(int id);
 void myth_verif_ev(int kind, const void * a, long b);
 void myth_verif_stack_acq(void * stk, size_t requested_size, size_t default_size);
+void myth_verif_stack_block(void * blk, size_t size);
 void myth_verif_stack_rel(void * stk, void * frame);
 void myth_verif_desc_acq(void * th, size_t sz, int fresh);
 void myth_verif_desc_rel(void * th);
@@ -198,6 +199,7 @@ int myth_verif_clock(struct timespec * ts);
 #define MYTH_VERIF_COV(name)   myth_verif_cov(MYTH_VERIF_ID_##name)
 #define MYTH_VERIF_EV(kind, a, b) myth_verif_ev(MYTH_VERIF_EV_##kind, (const void *)(a), (long)(b))
 #define MYTH_VERIF_STACK_ACQ(stk, req, dflt) myth_verif_stack_acq((void *)(stk), (req), (dflt))
+#define MYTH_VERIF_STACK_BLOCK(blk, size) myth_verif_stack_block((void *)(blk), (size))
 #define MYTH_VERIF_STACK_REL(stk) myth_verif_stack_rel((void *)(stk), __builtin_frame_address(0))
 #define MYTH_VERIF_DESC_ACQ(th, fresh) myth_verif_desc_acq((void *)(th), sizeof(struct myth_thread), (fresh))
 #define MYTH_VERIF_DESC_REL(th) myth_verif_desc_rel((void *)(th))
@@ -215,6 +217,7 @@ int myth_verif_clock(struct timespec * ts);
 #define MYTH_VERIF_COV(name)   ((void)0)
 #define MYTH_VERIF_EV(kind, a, b) ((void)0)
 #define MYTH_VERIF_STACK_ACQ(stk, req, dflt) ((void)0)
+#define MYTH_VERIF_STACK_BLOCK(blk, size) ((void)0)
 #define MYTH_VERIF_STACK_REL(stk) ((void)0)
 #define MYTH_VERIF_DESC_ACQ(th, fresh) ((void)0)
 #define MYTH_VERIF_DESC_REL(th) ((void)0)
